@@ -117,4 +117,75 @@ theorem exec_mass (code : Code) (origin : Addr) :
           · rw [ih]; exact mass_transfer s origin to v (by simpa using hg)
           · rw [mass_revertTo]
 
+/-- the ghost burn counter never decreases over a frame (a reverted child restores the value at its entry) -/
+theorem exec_burned_mono (code : Code) (origin : Addr) :
+    ∀ (f : Nat) (self : Addr) (ro : Bool) (sc : Script) (s : St),
+      s.burned ≤ (exec code origin f self ro sc s).1.burned := by
+  intro f
+  induction f with
+  | zero => intro self ro sc s; simp [exec]
+  | succ f ih =>
+    intro self ro sc s
+    cases sc with
+    | nil => simp [exec]
+    | cons a rest =>
+      cases a with
+      | stop => simp [exec]
+      | revert => simp [exec]
+      | invalid => simp [exec]
+      | suicide ben =>
+        simp only [exec]
+        split
+        · exact Nat.le_refl _
+        · unfold suicide; simp only; omega
+      | call to v =>
+        simp only [exec]
+        split
+        · exact Nat.le_refl _
+        · refine Nat.le_trans ?_ (ih _ _ _ _)
+          split
+          · exact Nat.le_refl _
+          · split
+            · exact ih _ _ _ { s with bal := vmTransfer s.bal self to v }
+            · exact Nat.le_refl _
+      | callcode to v =>
+        simp only [exec]
+        refine Nat.le_trans ?_ (ih _ _ _ _)
+        split
+        · exact Nat.le_refl _
+        · split
+          · exact ih _ _ _ s
+          · exact Nat.le_refl _
+      | delegatecall to =>
+        simp only [exec]
+        refine Nat.le_trans ?_ (ih _ _ _ _)
+        split
+        · exact ih _ _ _ s
+        · exact Nat.le_refl _
+      | staticcall to =>
+        simp only [exec]
+        refine Nat.le_trans ?_ (ih _ _ _ _)
+        split
+        · exact ih _ _ _ { s with bal := addBal s.bal to 0 }
+        · exact Nat.le_refl _
+      | create v init =>
+        simp only [exec]
+        split
+        · exact Nat.le_refl _
+        · refine Nat.le_trans ?_ (ih _ _ _ _)
+          split
+          · exact Nat.le_refl _
+          · split
+            · exact ih _ _ _ { ({ s with fresh := s.fresh + 1 } : St) with
+                bal := vmTransfer s.bal self (freshAddr s.fresh) v }
+            · exact Nat.le_refl _
+      | authcall to v =>
+        simp only [exec]
+        refine Nat.le_trans ?_ (ih _ _ _ _)
+        split
+        · exact Nat.le_refl _
+        · split
+          · exact ih _ _ _ { s with bal := vmTransfer s.bal origin to v }
+          · exact Nat.le_refl _
+
 end Rangers.Ledger
